@@ -307,6 +307,7 @@ theorem runOps_rel (R : World → World → Prop) (hrefl : ∀ w, R w w) (htrans
       | gc => exact hop _ _ (hset w me true)
       | it => exact hop _ _ (hset w me false)
       | err => exact hop _ _ (hthrow w)
+      | exec => exact hop _ _ (hrefl w)
 
 /-! ### what a script can do to a waiting user: nothing, or remove it from the table -/
 
